@@ -58,6 +58,7 @@ class OpaqueClass:
         self.truthy = opts.get("truthy", "true")
         self.iter = opts.get("iter")
         self.isa = opts.get("isa", [])  # external/repo class names instances are known to be
+        self.nota = opts.get("nota", [])  # ... and known not to be
         self.as_int = opts.get("as_int")
         self.nonneg = opts.get("nonneg", False)
 
@@ -499,6 +500,8 @@ class Registry:
         name = clsd.info.qualname if isinstance(clsd, VClass) else clsd.name
         if name in oc.isa:
             return z3.BoolVal(True)
+        if name in oc.nota or name in ("str", "builtins.str", "bytes", "int", "list", "dict", "bool"):
+            return z3.BoolVal(False)
         return z3.Function(f"{v.cls}.isinstance[{name}]", v.t.sort(), BOOL)(v.t)
 
     def opaque_str(self, it, v):
